@@ -450,6 +450,17 @@ func checkC15(c *Case, s *Stats) error {
 			if err := encLaw("Dummy", encode.Dummy{}, int32(v), []byte{}, junk, nil); err != nil {
 				return err
 			}
+			// Dummy has an exported Size field. Whatever a Dummy{Size: k} encodes to
+			// (the layout is not demanded here), the four size views must agree and
+			// the value decodes to nil.
+			d := encode.Dummy{Size: int(uint64(v) % 70)}
+			var enc []byte
+			if err := guard("Dummy encoder", func() error { enc = d.Encode(int32(v)); return nil }); err != nil {
+				return err
+			}
+			if err := encLaw(fmt.Sprintf("Dummy{Size:%d}", d.Size), d, int32(v), enc, junk, nil); err != nil {
+				return err
+			}
 		}
 		nt = len(junk) > 0
 		s.calls(4 * len(c.Ints))
